@@ -27,7 +27,9 @@ RULE = (
     "B: apply() with no modifications on every module shape of C01/C02/C03/C06/C08 and on the A layouts wrapped in a "
     "module; C: modules with alignment entries x single modifications (and patches carrying .align). A case is one "
     "split+join / one apply(); non-trivial = more than one block group / the module has >1 block / a modification "
-    "moves an aligned block; distinct by layout or (shape, mods)"
+    "moves an aligned block; distinct by layout or (shape, mods); D: one module through every history of <= H events "
+    "{empty apply, split+join, annotate an offset, tables replaced by fresh AuxData objects, tables dropped} from tables "
+    "absent / empty / populated: annotations read back by absolute address after every event"
 )
 ASSUMPTIONS = [
     "which group a zero-sized block sitting exactly on the boundary between two groups joins is unspecified (it depends on set order); both are accepted",
@@ -507,6 +509,135 @@ def align_atoms(spec):
     return out
 
 
+# =============================================================================== engine D
+# One Module object through a *history* of events: the module's offset tables appear, get populated, are replaced or
+# vanish between two splits / two rewrites.  After every event all annotations, read back by absolute address, must
+# be exactly the ones the plain model (a dict address -> value) holds, each keyed to an element that contains it.
+HIST_EVENTS = ("E", "S", "A1", "A3", "N", "D")
+HIST_INIT = ("absent", "empty", "populated")
+HIST_TABLES = (("comments", "mapping<Offset,string>"), ("symbolicExpressionSizes", "mapping<Offset,uint64_t>"))
+HIST_DEPTH = {"quick": 4, "thorough": 6}
+
+
+def _hist_module(init):
+    ir, m = create_test_module(gtirb.Module.FileFormat.ELF, gtirb.Module.ISA.X64)
+    s, bi = add_text_section(m, 0x1000)
+    bi.contents = b"\x90" * 6
+    bi.size = bi.initialized_size = 6
+    for i, (o, sz) in enumerate([(0, 2), (2, 2), (4, 2)]):
+        b = gtirb.CodeBlock(offset=o, size=sz)
+        b.byte_interval = bi
+        add_symbol(m, "s%d" % i, b)
+    for name, _ in HIST_TABLES:
+        m.aux_data.pop(name, None)
+    model = {}
+    if init != "absent":
+        for name, ty in HIST_TABLES:
+            m.aux_data[name] = gtirb.AuxData(type_name=ty, data={})
+    if init == "populated":
+        _hist_annotate(m, s, model, 5)
+    return ir, m, s, model
+
+
+def _hist_iv(sect, addr):
+    for iv in sorted(sect.byte_intervals, key=lambda x: x.address):
+        if iv.address <= addr < iv.address + iv.size:
+            return iv
+    raise KeyError(addr)
+
+
+def _hist_annotate(m, sect, model, k):
+    addr = 0x1000 + k
+    iv = _hist_iv(sect, addr)
+    off = addr - iv.address
+    iv.symbolic_expressions[off] = gtirb.SymAddrConst(0, m_sym(m))
+    for name, ty in HIST_TABLES:
+        if name not in m.aux_data:
+            m.aux_data[name] = gtirb.AuxData(type_name=ty, data={})
+        m.aux_data[name].data[gtirb.Offset(iv, off)] = ("note%d" % k) if name == "comments" else 1
+    model[addr] = k
+
+
+def _hist_observe(m, sect, model, where):
+    diffs = []
+    ivs = set(sect.byte_intervals)
+    want = {("symexpr", a) for a in model}
+    for name, _ in HIST_TABLES:
+        want |= {(name, a, ("note%d" % k) if name == "comments" else 1) for a, k in model.items()}
+    got = set()
+    for iv in ivs:
+        for off in iv.symbolic_expressions:
+            got.add(("symexpr", iv.address + off))
+            if not 0 <= off < iv.size:
+                diffs.append(C.D("history-expression-outside-its-interval", r_after=where, off=off, size=iv.size))
+    for name, _ in HIST_TABLES:
+        if name not in m.aux_data:
+            continue
+        for o, v in dict(m.aux_data[name].data).items():
+            el = o.element_id
+            if el not in ivs and getattr(el, "byte_interval", None) not in ivs:
+                diffs.append(C.D("history-annotation-element-not-in-module", r_table=name, r_after=where))
+                continue
+            if not 0 <= o.displacement <= el.size:
+                diffs.append(C.D("history-annotation-outside-its-element", r_table=name, r_after=where, disp=o.displacement, size=el.size))
+            got.add((name, el.address + o.displacement, v))
+    for x in sorted(want - got, key=str):
+        diffs.append(C.D("history-annotation-lost-or-moved", r_what=x[0], r_after=where, addr=x[1]))
+    for x in sorted(got - want, key=str):
+        diffs.append(C.D("history-annotation-spurious", r_what=x[0], r_after=where, addr=x[1]))
+    return diffs
+
+
+def check_history(init, hist):
+    from gtirb_rewriting import RewritingContext
+
+    ir, m, sect, model = _hist_module(init)
+    for step, ev in enumerate(hist):
+        try:
+            if ev == "E":
+                RewritingContext(m, []).apply()
+                diffs = _hist_observe(m, sect, model, "apply")
+                if len(sect.byte_intervals) != 1:
+                    diffs.append(C.D("history-apply-left-split-intervals", n=len(sect.byte_intervals)))
+            elif ev == "S":
+                (bi,) = sect.byte_intervals
+                parts = split_byte_interval(bi)
+                diffs = _hist_observe(m, sect, model, "split")
+                if len(parts) != 3:
+                    diffs.append(C.D("history-split-grouping", n=len(parts)))
+                parts = sorted(parts, key=lambda x: x.address)
+                join_byte_intervals(parts)
+                for iv in parts[1:]:
+                    iv.section = None  # as prepare_for_rewriting does
+                diffs += _hist_observe(m, sect, model, "join")
+                if len(sect.byte_intervals) != 1 or next(iter(sect.byte_intervals)).size != 6:
+                    diffs.append(C.D("history-join-did-not-restore", n=len(sect.byte_intervals)))
+            elif ev in ("A1", "A3"):
+                _hist_annotate(m, sect, model, int(ev[1]))
+                diffs = _hist_observe(m, sect, model, "annotate")
+            elif ev == "N":
+                # another tool rewrote the tables: fresh AuxData objects holding plain dicts with the same entries
+                for name, ty in HIST_TABLES:
+                    if name in m.aux_data:
+                        m.aux_data[name] = gtirb.AuxData(type_name=ty, data=dict(m.aux_data[name].data))
+                diffs = _hist_observe(m, sect, model, "replace")
+            else:
+                for name, _ in HIST_TABLES:
+                    m.aux_data.pop(name, None)
+                for iv in sect.byte_intervals:
+                    iv.symbolic_expressions.clear()
+                model.clear()
+                diffs = []
+        except Exception as e:
+            return "raised", [C.D("history-raised", r_exc=type(e).__name__, r_event=ev, msg=str(e)[:100], step=step)]
+        if diffs:
+            for d in diffs:
+                d["step"] = step
+                d["r_event"] = ev
+            return "diff:" + diffs[0]["kind"], diffs
+    return "ok:%d" % len(model), []
+
+
 # =============================================================================== runner glue
 def tasks(tier):
     size = BOUNDS[tier]["interval_size"]
@@ -515,6 +646,7 @@ def tasks(tier):
     t += [("empty-spec", i) for i in range(0, len(shapes_for_empty_apply()), 40)]
     t += [("empty-layout", min(size, 4), list(p)) for p in [(o, s) for o in range(min(size, 4) + 1) for s in range(min(size, 4) + 1 - o)]]
     t += [("align", i) for i in range(len(aligned_specs()))]
+    t += [("history", init, first, HIST_DEPTH[tier]) for init in HIST_INIT for first in HIST_EVENTS]
     return t
 
 
@@ -561,11 +693,23 @@ def run_task(task):
             if diffs:
                 res.bad({"engine": "align", "index": task[1], "mods": mods}, diffs)
             res.sample({"engine": "align", "spec": spec, "mods": mods}, cap=1)
+    elif task[0] == "history":
+        _, init, first, depth = task
+        for n in range(0, depth):
+            for rest in itertools.product(HIST_EVENTS, repeat=n):
+                hist = [first] + list(rest)
+                outcome, diffs = check_history(init, hist)
+                res.case(("history", init, hist), nontrivial=sum(1 for e in hist if e in ("E", "S")) > 0 and any(e[0] == "A" for e in hist), outcome=outcome)
+                if diffs:
+                    res.bad({"engine": "history", "init": init, "hist": hist}, diffs)
+        res.sample({"engine": "history", "init": init, "hist": [first, "A3", "S"]}, cap=1)
     return res
 
 
 def replay(case):
     e = case["engine"]
+    if e == "history":
+        return check_history(case["init"], case["hist"])[1]
     if e == "interval":
         return check_interval(case["case"])[1]
     if e == "empty-spec":
